@@ -123,6 +123,23 @@ def rand_flows_burst_history(rng, thorough=False):
     return h
 
 
+def rand_conc_history(rng):
+    """flows mode, responses of 2-4 different sequences handled at the same time: every call enters the flow while the previous
+    ones are parked in the Retry processor's cool-down wait (positive cool-down), then the waits end; each sequence is judged
+    on its own budget"""
+    seqs = ["s%d" % i for i in range(1, rng.choice([2, 2, 3, 4]) + 1)]
+    A = rng.choice([1, 2, 2, 3])
+    h = [{"ev": "reset", "mode": "flows", "A": A, "cd": rng.choice([1, 2]), "mult": rng.choice([0, 1]), "ranges": [[500, 599]], "seqs": seqs}]
+    for _ in range(rng.randint(A + 2, A + 6)):
+        if rng.random() < 0.2:
+            h.append({"ev": "resp", "s": rng.choice(seqs), "st": rng.choice([500, 503, 200])})
+            continue
+        k = rng.randint(2, len(seqs))
+        calls = [{"ev": "resp", "s": s, "st": rng.choice([500, 500, 503, 599, 200])} for s in rng.sample(seqs, k)]
+        h.append({"ev": "conc", "calls": calls})
+    return h
+
+
 def shrinking_cooldown_history(rng):
     """policy mode: the announced cool-down shrinks from one retry to the next (multiplier 0 or 1 with a client that comes back
     sooner), so a later state write has an earlier expiry than the entry it replaces"""
@@ -352,6 +369,8 @@ def run(ctx):
             return rand_flows_burst_history(ctx.rng, T)
         if j in (2, 5):
             return shrinking_cooldown_history(ctx.rng)
+        if j in (6, 9, 13):
+            return rand_conc_history(ctx.rng)
         return rand_history(ctx.rng, "policy" if (i + j) % 2 == 0 else "flows", T)
     scripts = [{"histories": [pick(i, j) for j in range(nh)]} for i in range(nscripts)]
     traces = execute(ctx, binary, scripts, "rand")
